@@ -164,6 +164,13 @@ fn explore(cx: &mut Ctx, rng: &mut Rng) {
     }
     let mut cases = std::mem::take(&mut b.buf);
     let only = std::env::var("C06_ONLY").ok();
+    if only.as_deref() == Some("gen") {
+        // developer aid: only the control-flow / register-pressure generators
+        cases.clear();
+        let mut sink = |c: Case| cases.push(c);
+        control_flow_cases(thorough, rng, &mut sink);
+        register_pressure_cases(thorough, &mut sink);
+    }
     if let Some(f) = &only {
         cases.retain(|c| c.apis.iter().any(|a| a.contains(f.as_str())));
     }
@@ -186,6 +193,24 @@ fn explore(cx: &mut Ctx, rng: &mut Rng) {
         cx.run_cases(chunk.to_vec());
     }
     drop(cases);
+    // ---- (d) control-flow endings, (e) register pressure -----------------------------------------
+    {
+        let mut sink = |c: Case| b.buf.push(c);
+        control_flow_cases(thorough, rng, &mut sink);
+        register_pressure_cases(thorough, &mut sink);
+    }
+    let cases = std::mem::take(&mut b.buf);
+    eprintln!("[c06] control-flow / register-pressure cases: {}", cases.len());
+    // the same texts also go through parse + compile + format + Display
+    let mut both: Vec<Case> = Vec::with_capacity(cases.len() * 2);
+    for c in cases {
+        both.push(Case { kind: 'C', text: c.text.clone(), group: c.group, apis: c.apis.clone() });
+        both.push(c);
+    }
+    for chunk in both.chunks(CHUNK) {
+        cx.run_cases(chunk.to_vec());
+    }
+    drop(both);
     // ---- (a) compile / format / Display --------------------------------------------------------
     let sources = corpus_sources();
     cx.rep.extra.insert("corpus_sources".into(), json!(sources.len()));
